@@ -223,14 +223,21 @@ CHECKS['C03'] = dict(
     ref='DESIGN.md section 5, C03')
 
 CHECKS['C13'] = dict(
-    category='exploration',
-    text='Interim level: documents are written from generated trees by a writer that records the line of every block; the '
-         'recorded lines are compared with token.line_number for every block token at every depth (quotes, list items incl. '
-         'items beginning with a blank line, tables with rows and cells, lazy lines, definitions and leading blank lines), '
-         'under the Html and Markdown token sets. The Lean proof with ghost line origins over the block-parser model is the '
-         'planned upgrade.',
-    note='Trusted: gen_tree.py as oracle for block lines. Interim level, see DESIGN.md C13.',
-    technique='generator-with-oracle exploration of line numbers (Lean ghost-origin proof pending the block-parser model)',
+    text='Lean 4 theorems over a model of the whole block phase (FileWrapper, every start/read/check_interrupts_paragraph, '
+         'tokenize_block, List.read, ListItem.read, Quote.read) in which every line carries as ghost state the index of the '
+         'input line it was cut from: for every token list and flags, every list of complete lines (Document(str) always '
+         'produces such lines: proved), at every nesting depth, the line number the code stores for a token (start_line + '
+         'cursor) equals the index of the input line the token was dispatched on; the lines handed to nested tokenizers '
+         'have origins start_line, start_line+1, ...; Footnote.read hands back exactly the lines it consumed; table row k '
+         'is input line start_line+k. Proved by simultaneous induction over the call-chain budget of the four mutually '
+         'recursive functions, no bound on sizes or depth. The model is tied to the code by the scan.* units (each scanner vs '
+         'the compiled pattern) and the block.buffer unit (real tokenize_block vs the model, buffers with line numbers at '
+         'every depth). The property itself is also explored on the implementation with a generator that knows where it '
+         'wrote each block (this covers the token constructors: ListItem, TableRow, TableCell).',
+    note='Trusted: Lean kernel (axioms propext/Classical.choice/Quot.sound at most); the hand-written block model and its '
+         'correspondence harness; gen_tree.py as oracle for the exploration. The constructors that copy the buffer line '
+         'number into tokens are explored, not modelled.',
+    technique='Lean 4 proof (ghost line origins; mutual induction over the tokenizer call chain) + correspondence of scanners and parse buffers + generator-with-oracle exploration',
     ref='DESIGN.md section 5, C13')
 
 CHECKS['C09'] = dict(
